@@ -6,7 +6,9 @@ import (
 	"fmt"
 	"hash/crc32"
 	"math/rand"
+	"os"
 	"runtime"
+	"runtime/debug"
 	"sort"
 )
 
@@ -26,7 +28,24 @@ type damage struct {
 	RecIdx int    `json:"rec"`    // record the flip is aimed at
 }
 
+var hugeRuns int
+
 func (damageEngine) Generate(rng *rand.Rand, prop string, thorough bool) *Plan {
+	if prop == "C19" && os.Getenv("VERIF_BIG") != "" {
+		hugeRuns++
+		if hugeRuns == 1 || (thorough && hugeRuns%60 == 0) {
+			// a segment of more than 2 GiB (procedural content, not held in memory) with a garbage header at its tail
+			p := &Plan{Property: prop, Engine: "huge", Cfg: Cfg{HashSeed: rng.Uint32(), MaxSeg: 1 << 31, CompMinSeg: 1 << 30, CompFrag: 0.5}}
+			p.SetKeys([][]byte{[]byte("big")})
+			var ops []Op
+			for _, vl := range []int64{1 << 31, 1<<31 + 4096, 1<<32 - 70000, 1<<32 - 1, 1<<31 - 1, 1<<31 - 6000, rng.Int63n(1 << 32)} {
+				kl := []int{0, 1, 255, 65535, rng.Intn(65536)}[rng.Intn(5)]
+				ops = append(ops, Op{K: "huge-header", Key: kl, ID: int(vl >> 16), Size: int(vl & 0xffff)})
+			}
+			p.Tasks = [][]Op{ops}
+			return p
+		}
+	}
 	cfg := GenCfg(rng)
 	cfg.NKeys = []int{2, 4, 8, 16}[rng.Intn(4)]
 	if cfg.Family == int(KFLengths) || cfg.Family == int(KFFull32) {
@@ -125,7 +144,119 @@ type damagedCase struct {
 	flipValid int64 // expected valid length of flipSeg
 }
 
+// executeHuge: recovery of a segment larger than 2 GiB whose tail is a header claiming arbitrary lengths.
+// The offsets involved exceed 2^31: arithmetic on offsets and lengths must not wrap.
+func executeHuge(p *Plan) *RunResult {
+	res := newResult()
+	res.Evaluations = 0
+	for _, op := range p.Tasks[0] {
+		r := executeHugeOne(p, op)
+		res.Evaluations++
+		res.Probes.Add(r.Probes)
+		for k, v := range r.Faults {
+			res.Faults[k] += v
+		}
+		res.Hashes = append(res.Hashes, r.Hashes...)
+		res.NonTrivial = true
+		res.Sample = r.Sample
+		if r.V != nil {
+			res.V = r.V
+			return res
+		}
+	}
+	return res
+}
+
+func executeHugeOne(p *Plan, op Op) *RunResult {
+	res := newResult()
+	claimK := uint16(op.Key)
+	claimV := uint32(int64(op.ID)<<16 | int64(op.Size))
+	key := []byte("big")
+	val := make([]byte, 4<<20)
+	for i := range val {
+		val[i] = byte(i*7 + i>>11)
+	}
+	rec := encodeRecordIndep(key, val, false)
+	const nrec = 512
+	R := int64(len(rec))
+	hdr := make([]byte, walHeaderSize)
+	copy(hdr, walSignature)
+	binary.LittleEndian.PutUint32(hdr[8:12], walVersion)
+	tail := make([]byte, 6+3)
+	binary.LittleEndian.PutUint16(tail[0:2], claimK)
+	binary.LittleEndian.PutUint32(tail[2:6], claimV)
+	valid := int64(walHeaderSize) + nrec*R
+	total := valid + int64(len(tail))
+	at := func(off int64, b []byte) {
+		for i := 0; i < len(b); {
+			o := off + int64(i)
+			switch {
+			case o < walHeaderSize:
+				i += copy(b[i:], hdr[o:])
+			case o < valid:
+				i += copy(b[i:], rec[(o-walHeaderSize)%R:])
+			default:
+				i += copy(b[i:], tail[o-valid:])
+			}
+		}
+	}
+	im := NewImage()
+	im.Dirs[dbDir] = true
+	im.Files[dbDir+"/lock"] = &FileState{}
+	e := NewEnv(p.Cfg, p.KeyBytes(), im, false)
+	e.NoRetain = true
+	seg := dbDir + "/00000-1.psg"
+	e.FS.SetVirtual(seg, total, at)
+	oldGC := debug.SetGCPercent(50)
+	defer debug.SetGCPercent(oldGC)
+	var ms0, ms1 runtime.MemStats
+	runtime.ReadMemStats(&ms0)
+	err := e.Open()
+	runtime.ReadMemStats(&ms1)
+	desc := fmt.Sprintf("segment of %d bytes (512 records of 4 MiB) + header{key size %d, value size %d, delete bit %v} + 3 bytes", valid, claimK, claimV&^(1<<31), claimV>>31 == 1)
+	if err != nil {
+		res.V = violf("open-failed-on-damaged-tail", "%s: Open: %v", desc, err)
+		return res
+	}
+	res.Faults["garbage-header-beyond-2GiB"]++
+	res.Probes["huge_segment_recovered"]++
+	alloc := int64(ms1.TotalAlloc - ms0.TotalAlloc)
+	if bound := 2*total + 64<<20; alloc > bound {
+		res.V = violf("recovery-allocates-by-claimed-length", "%s: the recovering Open allocated %d bytes (bound %d)", desc, alloc, bound)
+		return res
+	}
+	if e.FS.Stats.MaxReadOver > 64<<10 {
+		res.V = violf("recovery-reads-by-claimed-length", "%s: a read request exceeded the bytes remaining in the file by %d", desc, e.FS.Stats.MaxReadOver)
+		return res
+	}
+	if got := e.FS.FileSize(seg); got != valid {
+		res.V = violf("damaged-segment-not-truncated", "%s: the segment is %d bytes after recovery, its valid prefix is %d", desc, got, valid)
+		return res
+	}
+	if n := e.DB.Count(); n != 1 {
+		res.V = violf("damaged-tail-count-mismatch", "%s: Count() = %d, want 1", desc, n)
+		return res
+	}
+	got, err := e.DB.Get(key)
+	if err != nil || !bytes.Equal(got, val) {
+		res.V = violf("damaged-tail-get-mismatch", "%s: Get returns %d bytes, %v; want the 4 MiB value of the last record", desc, len(got), err)
+		return res
+	}
+	if err := e.DB.Close(); err != nil {
+		res.V = violf("api-error", "%s: Close: %v", desc, err)
+		return res
+	}
+	debug.FreeOSMemory()
+	res.Hashes = append(res.Hashes, uint64(claimV)<<16|uint64(claimK))
+	res.NonTrivial = true
+	res.Sample = map[string]interface{}{"seed": p.Seed, "case": desc, "allocated": alloc, "largest_read_over": e.FS.Stats.MaxReadOver}
+	return res
+}
+
 func (damageEngine) Execute(p *Plan) *RunResult {
+	if p.Engine == "huge" {
+		return executeHuge(p)
+	}
 	res := newResult()
 	res.Evaluations = 0
 	e, base, v := buildUncleanImage(p)
